@@ -21,14 +21,14 @@ import (
 // Everything is analysed, nothing is executed; variants are packages.Config overlays.
 
 type variantResult struct {
-	Name     string         `json:"name"`
-	Loaded   bool           `json:"loaded"`
-	Skipped  string         `json:"skipped,omitempty"`
-	Summary  map[string]int `json:"summary,omitempty"` // "R1/discharged" -> n
-	Same     bool           `json:"same_verdict_as_base"`
-	Diff     []string       `json:"diff,omitempty"`
-	Detail   string         `json:"detail,omitempty"`
-	obs      []Ob
+	Name    string         `json:"name"`
+	Loaded  bool           `json:"loaded"`
+	Skipped string         `json:"skipped,omitempty"`
+	Summary map[string]int `json:"summary,omitempty"` // "R1/discharged" -> n
+	Same    bool           `json:"same_verdict_as_base"`
+	Diff    []string       `json:"diff,omitempty"`
+	Detail  string         `json:"detail,omitempty"`
+	obs     []Ob
 }
 
 func summarise(obs []Ob, prop string) map[string]int {
@@ -125,7 +125,10 @@ func runThorough(base *Prog, prop string, ruleIDs []string, baseObs []Ob, specDi
 	}
 
 	// 1. other build configurations
-	for _, c := range []struct{ name string; env []string }{
+	for _, c := range []struct {
+		name string
+		env  []string
+	}{
 		{"linux/386", []string{"GOOS=linux", "GOARCH=386"}},
 		{"linux/arm64", []string{"GOOS=linux", "GOARCH=arm64"}},
 		{"darwin/arm64", []string{"GOOS=darwin", "GOARCH=arm64"}},
